@@ -17,8 +17,15 @@ Lemma wf_all_Forall l : wf_all l <-> Forall wf l.
 Proof. induction l as [|x l IH]; cbn; [split; [constructor|tauto]|]. rewrite IH. split; [intros [A B]; constructor; assumption|intros H; inversion H; auto]. Qed.
 
 (* what may follow a type in the places the parser is called from *)
+(* what may follow a type: anything but `<` (read as generic arguments), `::` (read as a path continuation) and the keyword `as`;
+   in particular `,` `>` `;` (inside types), `+` `=` `:` `{..}` `where` (generic parameter lists and where clauses) and the end of the stream *)
 Definition stop (rest: list tt) : Prop :=
-  match rest with [] => True | TP PComma :: _ | TP PGt :: _ | TP PSemi :: _ => True | _ => False end.
+  match rest with
+  | TP PLt :: _ => False
+  | TP PColon :: TP PColon :: _ => False
+  | TId s :: _ => (s =? "as") = false
+  | _ => True
+  end.
 
 Fixpoint depth (t: g) : nat :=
   match t with
@@ -133,9 +140,6 @@ Proof.
   pose proof (maxdepth_in l a Ha). lia.
 Qed.
 
-Lemma stop_cases rest : stop rest -> rest = [] \/ exists p r, rest = TP p :: r /\ (p = PComma \/ p = PGt \/ p = PSemi).
-Proof. destruct rest as [|[s|p|n|dl ts] r]; cbn; try tauto. intros H. right. exists p, r. destruct p; try contradiction; auto. Qed.
-
 Lemma body_path s0 segs args : is_kw s0 = false -> Forall parses args -> body_parses (GPath s0 segs args).
 Proof.
   intros Hkw Hall f rt rest Hd Hs. cbn [depth] in Hd. fold (maxdepth args) in Hd.
@@ -145,7 +149,8 @@ Proof.
   rewrite path_loop_ok; [|rewrite app_length, length_colons; lia|].
   2:{ subst X. destruct args; cbn [app]; [apply stop_not_colons; exact Hs|exact I]. }
   cbn [bind app]. subst X. destruct args as [|a r].
-  - cbn [app]. destruct (stop_cases rest Hs) as [->|(p & r & -> & Hp)]; [reflexivity|]. destruct Hp as [->|[->| ->]]; reflexivity.
+  - cbn [app]. destruct rest as [|[s|p|n|dl ts] r]; [reflexivity|cbn in Hs; rewrite Hs; reflexivity| |reflexivity|reflexivity].
+    destruct p; try reflexivity. contradiction.
   - cbn [app map]. rewrite sep_comma_cons. rewrite <- !app_assoc. cbn [app].
     destruct f as [|f]; [lia|].
     assert (Hd': maxdepth (a :: r) < S f) by lia.
